@@ -18,10 +18,11 @@ import json
 
 from vlib.common import Run, Finding, BrokenTie, coq_eval_many, parse_eval, parse_coq_list, shrink_list
 
-USERS = ['me', 'u1', 'u2']
+USERS = ['me', 'u1', 'u2']          # pinned by the harness (held strongly from outside)
+ALL_USERS = USERS + ['u3']          # u3 is never pinned: it exists only while the library itself references it
 ROOMS = ['r0', 'r1', 'r2']
 TEXTS = ['t0', 't1', 't2', 't3']
-UID = {n: i for i, n in enumerate(USERS)}
+UID = {n: i for i, n in enumerate(ALL_USERS)}
 RID = {n: i for i, n in enumerate(ROOMS)}
 TID = {n: i for i, n in enumerate(TEXTS)}
 
@@ -229,7 +230,10 @@ def _event_tuple(e):
     return [lab, room, user]
 
 
-def snapshot(client):
+def snapshot(client, collect=False):
+    if collect:
+        import gc
+        gc.collect()      # unpinned users: reference cycles must not decide whether a user object is still there
     rooms = []
     for name, r in client.rooms.rooms.items():
         assert r.name == name
@@ -252,6 +256,9 @@ def run_impl(blocked: dict, msgs: list, env=None):
     w = World(username='me')
     try:
         w.settings.users.blocked = {u: BlockingFlag[f] for u, f in blocked.items()}
+        if env == 'friends':
+            # the blocked users are friends as well (the block filters are about the message kind, not about friendship)
+            w.settings.users.friends = set(blocked) | {'u2'}
         w.start()
         w.login()
         client = w.client
@@ -280,7 +287,8 @@ def run_impl(blocked: dict, msgs: list, env=None):
                 client.events.register(getattr(E, n), fn, priority=10)
         late_from = len(msgs) // 2 if env == 'late' else None
         all_events = []
-        out = [(snapshot(client), [])]
+        collect = 'u3' in json.dumps(msgs)
+        out = [(snapshot(client, collect), [])]
         for i, m in enumerate(msgs):
             if late_from is not None and i == late_from:
                 def late_listener(e):
@@ -294,7 +302,7 @@ def run_impl(blocked: dict, msgs: list, env=None):
             evs = [_event_tuple(e) for e in got]
             if late_from is not None and i >= late_from:
                 all_events += evs
-            out.append((snapshot(client), evs))
+            out.append((snapshot(client, collect), evs))
         assert len(pins) == 3
         bad = [c for c in w.loop.unhandled if c.get('exception') is not None]
         problems = [repr(c.get('exception')) for c in bad]
@@ -318,7 +326,7 @@ class Reference:
 
     def __init__(self, blocked, own_grant_discards=False):
         self.rooms = {}
-        self.users = {n: {'status': -1, 'stats': None, 'priv': False} for n in USERS}
+        self.users = {n: {'status': -1, 'stats': None, 'priv': False} for n in ALL_USERS}
         self.users['me']['status'] = 2          # online after login
         self.blocked = blocked
         self.quirk = own_grant_discards
@@ -491,11 +499,16 @@ def monitor(blocked, msgs, obs):
         quirk.apply(m)
         snap, evs = obs[i + 1]
         iv = _norm(impl_view(snap))
+
+        def _restrict(v):
+            v = _norm(v)
+            v['users'] = {u: x for u, x in v['users'].items() if u in USERS or u in iv['users']}
+            return v
         if first is None:
             if _norm(evs) != _norm(exp_ev):
                 first = (i, 'events', evs, exp_ev)
             else:
-                rv = _norm(ref.view())
+                rv = _restrict(ref.view())
                 if iv != rv:
                     what = 'view'
                     for r in set(iv['rooms']) | set(rv['rooms']):
@@ -507,13 +520,13 @@ def monitor(blocked, msgs, obs):
                                 names = ['private', 'users', 'joined', 'tickers', 'members', 'owner', 'operators']
                                 what = f'room {r} ' + ','.join(n for n, x, y in zip(names, a, b) if x != y)
                     if what == 'view':
-                        for u in USERS:
+                        for u in ALL_USERS:
                             a, b = iv['users'].get(u), rv['users'].get(u)
                             if a != b:
                                 names = ['status', 'stats', 'privileged']
                                 what = f'user {u} ' + (','.join(n for n, x, y in zip(names, a or [], b or []) if x != y) or 'known')
                     first = (i, what, iv, rv)
-        if iv != _norm(quirk.view()):
+        if iv != _restrict(quirk.view()):
             quirk_ok = False
     if first is None:
         return None
@@ -541,7 +554,10 @@ Definition req (a b : rrec) := Bool.eqb (r_private a) (r_private b) && leq Nat.e
   && leq (peq Nat.eqb Nat.eqb) (r_tickers a) (r_tickers b) && leq Nat.eqb (srt (r_members a)) (r_members b)
   && oeq Nat.eqb (r_owner a) (r_owner b) && leq Nat.eqb (srt (r_ops a)) (r_ops b).
 Definition ueq (a b : urec) := Z.eqb (u_status a) (u_status b) && oeq seq4 (u_stats a) (u_stats b) && Bool.eqb (u_priv a) (u_priv b).
-Definition steq (a b : state) := leq (peq Nat.eqb req) (rooms a) (rooms b) && leq (peq Nat.eqb ueq) (users a) (users b) && leq Nat.eqb (srt (privset a)) (privset b).
+(* user 3 is not held by the harness: the implementation forgets it when nothing references it any more; the model's entry
+   is compared only while the implementation has one *)
+Definition uvis (b : list (nat * urec)) (p : nat * urec) := negb (Nat.eqb (fst p) 3) || existsb (fun q => Nat.eqb (fst q) 3) b.
+Definition steq (a b : state) := leq (peq Nat.eqb req) (rooms a) (rooms b) && leq (peq Nat.eqb ueq) (filter (uvis (users b)) (users a)) (users b) && leq Nat.eqb (srt (privset a)) (privset b).
 Definition labeq (a b : label) := match a, b with
  | LRoomMessage, LRoomMessage | LPublicMessage, LPublicMessage | LPrivateMessage, LPrivateMessage | LRoomJoined, LRoomJoined
  | LRoomLeft, LRoomLeft | LRoomTickers, LRoomTickers | LTickerAdded, LTickerAdded | LTickerRemoved, LTickerRemoved
@@ -760,7 +776,22 @@ def run(run: Run):
         for pi in range(npre):
             for k in range(4 if (not proved or run.tier != 'quick') else 1):
                 explore({'u2': 'IGNORE'} if k % 2 else {}, RICH_PREFIXES[pi] + al[k::4][:8], 'env:' + env, env)
-    n = 100 if run.tier == "quick" else 2000
+    # block filters with the blocked users being friends as well (settings.users.friends), every chat kind
+    st = [5, 1, 7, 2]
+    chats = [['RoomChat', 'r0', 'u1', 't0'], ['PublicChat', 'r0', 'u1', 't1'], ['PrivateChat', 'u1', 't2'], ['RoomChat', 'r1', 'u2', 't0'],
+             ['PrivateChat', 'u2', 't3'], ['PublicChat', 'r0', 'me', 't0'], ['PrivateChat', 'me', 't1']]
+    for bm in ({'u1': 'IGNORE'}, {'u1': 'ROOM_MESSAGES', 'u2': 'PRIVATE_MESSAGES'}, {'u1': 'ALL', 'me': 'IGNORE'}, {'u2': 'SEARCHES'}):
+        explore(bm, [['UserJoined', 'r0', 'u1', 2, st]] + chats, 'friends+blocked', 'friends')
+    # a user that is first referenced AFTER a privileged-users list named it (u3 is not held by the harness: the user object is
+    # created by the first handler that references it and lives as long as a room lists it)
+    for seq in ([['PrivUsers', ['u3', 'u1']], ['UserJoined', 'r0', 'u3', 2, st], ['UserStatus', 'u3', 1, True], ['PrivUsers', ['u1']],
+                 ['AddPrivUser', 'u3'], ['UserStats', 'u3', [1, 2, 3, 4]]],
+                [['PrivUsers', ['u3']], ['JoinRoom', 'r0', [['u3', 2, st], ['u1', 1, st]], None, []], ['PrivUsers', []],
+                 ['UserJoined', 'r1', 'u3', 0, st], ['PrivUsers', ['u3', 'u2']]],
+                [['UserJoined', 'r0', 'u3', 2, st], ['PrivUsers', ['u3']], ['UserLeft', 'r0', 'u3']],
+                [['PrivUsers', ['u2', 'u3']], ['LeaveRoom', 'r0'], ['UserJoined', 'r0', 'u3', 1, st], ['UserJoined', 'r0', 'u2', 1, st]]):
+        explore({}, seq, 'late-user')
+    n = 60 if run.tier == "quick" else 2000
     for i in range(n):
         explore(rng.choice(BLOCKMAPS), gen_seq(rng), 'random')
 
